@@ -22,6 +22,9 @@ def main(argv):
         print("MACHINERY-ERROR: the check did not finish within its overall time limit")
         os._exit(2)
 
+    import faulthandler
+
+    faulthandler.register(signal.SIGUSR1, all_threads=True)      # kill -USR1 <pid> dumps the Python stacks (debugging aid)
     signal.signal(signal.SIGALRM, _watchdog)
     signal.alarm(int(os.environ.get("VERIF_CHECK_TIMEOUT", 2700 if args.tier == "quick" else 6 * 3600)))
     try:
